@@ -132,7 +132,7 @@ def discover_harnesses(prop, tier, only=None):
                     continue
                 seen.add(name)
                 res.append(dict(name=name, hook=h['hook'], crate=h['crate'], full=module_path(h) + '::' + name,
-                                bounded=('bnd' in flags), term=('term' in flags), flags=flags))
+                                bounded=('bnd' in flags or 'nat' in flags), term=('term' in flags), native=('nat' in flags), flags=flags))
     return res
 
 
@@ -281,6 +281,38 @@ def native_playback(hook_crate, hooks_tests):
     return dict(outcomes=outcomes, panics=[' '.join(x) for x in panics], aborted=aborted, cmd=' '.join(cmd), output='\n'.join(keep)[-6000:])
 
 
+def run_native(crate, harnesses, timeout_s=2400):
+    """Bounded stand-ins: `#[test]` functions inside the hook modules, compiled natively with cfg(kani) by
+    `cargo kani playback` and executed on the real code (exhaustive enumeration of a small finite domain)."""
+    env = dict(ENV, CARGO_TARGET_DIR=PLAYBACK_TARGET, RUST_BACKTRACE='0')
+    cmd = ['cargo', 'kani', 'playback', '-Z', 'concrete-playback', '-Z', 'function-contracts', '-Z', 'stubbing', '-p', crate, '--lib', '--']
+    cmd += [h['name'] for h in harnesses] + ['--test-threads', '8']
+    t0 = time.time()
+    try:
+        p = subprocess.run(cmd, cwd=REPO, env=env, stdout=subprocess.PIPE, stderr=subprocess.STDOUT, text=True, timeout=timeout_s)
+        out = p.stdout
+    except subprocess.TimeoutExpired as e:
+        out = (e.stdout.decode() if isinstance(e.stdout, bytes) else (e.stdout or '')) + '\n[driver] native run timed out\n'
+    wall = time.time() - t0
+    os.makedirs(os.path.join(BUILD, 'logs'), exist_ok=True)
+    logp = os.path.join(BUILD, 'logs', 'native-%s-%d.log' % (crate, int(t0)))
+    open(logp, 'w').write(' '.join(cmd) + '\n' + out)
+    if 'error: could not compile' in out or ('running ' not in out and 'error' in out):
+        errs = [l for l in out.split('\n') if l.startswith('error')]
+        raise Undecided('native build of %s failed: %s (log %s)' % (crate, '; '.join(errs[:4]), logp))
+    res = {}
+    for mo in re.finditer(r'^test (\S+) \.\.\. (\w+)', out, re.M):
+        res[mo.group(1).split('::')[-1]] = dict(status=mo.group(2), msg='')
+    # failure messages:  ---- path::name stdout ----\n ... panicked at file:line:col:\n<message>
+    for mo in re.finditer(r'---- (\S+) stdout ----\n(.*?)(?=\n---- |\nfailures:|\Z)', out, re.S):
+        name = mo.group(1).split('::')[-1]
+        body = mo.group(2)
+        pm = re.search(r'panicked at [^\n]*\n(.*)', body, re.S)
+        if name in res:
+            res[name]['msg'] = (pm.group(1) if pm else body).strip()[:1500]
+    return res, wall, ' '.join(cmd), logp
+
+
 def concrete_values(test_src):
     vals = []
     for mo in re.finditer(r'//\s*(.*?)\n\s*vec!\[([0-9, ]*)\]', test_src):
@@ -315,8 +347,12 @@ def run_property(prop, tier, only, jobs):
             raise Undecided('no obligations registered for %s' % prop)
         # ----- Kani
         by_crate = {}
+        native_by_crate = {}
         for h in harnesses:
-            by_crate.setdefault((h['crate'], 'z3' in h['flags']), []).append(h)
+            if h['native']:
+                native_by_crate.setdefault(h['crate'], []).append(h)
+            else:
+                by_crate.setdefault((h['crate'], 'z3' in h['flags']), []).append(h)
         kres = {}
         cmds = []
         kani_wall = 0.0
@@ -327,6 +363,13 @@ def run_property(prop, tier, only, jobs):
             cmds.append(cmd if len(cmd) < 400 else cmd[:400] + ' ...')
             for h in hs:
                 kres[h['name']] = res.get(h['full'], dict(status='NO_RESULT', failed_checks=[], covers=None, checks=None, time=None, raw=[]))
+        # ----- native bounded stand-ins
+        nres = {}
+        for crate, hs in native_by_crate.items():
+            res, wall, cmd, logp = run_native(crate, hs)
+            cmds.append(cmd if len(cmd) < 400 else cmd[:400] + ' ...')
+            for h in hs:
+                nres[h['name']] = res.get(h['name'], dict(status='NO_RESULT', msg=''))
         # ----- Verus
         vres = verus_units.run_units(vunits, tier)
     except Undecided as e:
@@ -336,11 +379,39 @@ def run_property(prop, tier, only, jobs):
     violations = []
     known_hit = []
     undecided = []
+    native_viol = []
     soft_undecided = []
     passed = []
     records = []
+    # native classification
+    for h in harnesses:
+        if not h['native']:
+            continue
+        r = nres[h['name']]
+        rec = dict(obligation=h['name'], engine='native exhaustive execution (bounded stand-in)', harness=h['full'], status=r['status'], checks=None,
+                   covers=None, time_s=None, bounded=True, failed_checks=[r['msg'][:300]] if r['msg'] else [])
+        records.append(rec)
+        if r['status'] == 'ok':
+            passed.append(h['name'])
+            rec['verdict'] = 'discharged'
+        elif r['status'] == 'FAILED':
+            f = kf.get(h['name'])
+            if f and all(any(c in line for c in f['checks']) for line in [r['msg']]):
+                known_hit.append((h['name'], f))
+                rec['verdict'] = 'known-finding'
+            else:
+                rec['verdict'] = 'violation'
+                pth = write_replay(prop, h['name'], dict(engine='native', harness=h['full'], hook=h['hook'], crate=h['crate'],
+                                                         failing_input=r['msg'], note='the test enumerates its finite domain on the real code and panics with the first failing input'))
+                native_viol.append('VIOLATION property=%s replay=%s obligation=%s' % (prop, pth, h['name']))
+                violations.append((dict(name=h['name'], native_done=True), r, None))
+        else:
+            undecided.append((h['name'], 'native test status %s' % r['status']))
+            rec['verdict'] = 'undecided'
     # Kani classification
     for h in harnesses:
+        if h['native']:
+            continue
         r = kres[h['name']]
         rec = dict(obligation=h['name'], engine=('kani/cbmc+z3' if 'z3' in h['flags'] else 'kani/cbmc+cadical'), harness=h['full'], status=r['status'], checks=r['checks'],
                    covers=r['covers'], time_s=r['time'], bounded=h['bounded'], failed_checks=r['failed_checks'])
@@ -406,6 +477,8 @@ def run_property(prop, tier, only, jobs):
     pending = []   # (h, payload, tests)
     n_full = 0
     for h, r, f in violations:
+        if h.get('native_done'):
+            continue
         if h.get('verus'):
             payload = dict(engine='verus', verifier_output=r.get('errors', []), generated_file=h['unit'].get('generated'),
                            note='Verus gives no counterexample', failing_input=None)
@@ -457,7 +530,7 @@ def run_property(prop, tier, only, jobs):
         log('UNDECIDED property=%s obligation=%s reason=%s' % (prop, name, why))
     for name, why in soft_undecided:
         log('NOTE property=%s obligation=%s not decided: %s' % (prop, name, why))
-    for l in viol_lines:
+    for l in native_viol + viol_lines:
         log(l)
 
     wall = time.time() - t0
